@@ -87,7 +87,7 @@ PROPS["C15"] = {
 PROPS["C09"] = {
   "engine": "sim_threads", "variant": "cov", "level": "exploration",
   "parts": [{}],
-  "budget_quick": 75, "budget_thorough": 1500,
+  "budget_quick": 55, "budget_thorough": 1500,
   "rule": "one run = 2-6 (1 in 12 runs: 8-32) real threads under the baton scheduler sharing one compiled rule set (strings, regexes, every module, externals); each thread runs 1-6 scans through its own scanner or the rules-level calls (mem, file, fd, 2-block iterator, mapped file truncated right after mapping => real SIGBUS inside the trycatch) with its own callback plan (ABORT/ERROR at message k), timeout, scanner-level externals and module data; some runs add a thread compiling unrelated (also failing) rules. Yield points: every basic block of scanner.c scan.c exec.c re.c modules.c object.c notebook.c hash.c rules.c libyara.c arena.c and the modules (compiler instrumentation), every allocation/free, callback, iterator call, clock read, mutex lock/unlock, sigaction and file syscall. Scheduling policy drawn per run: random quanta per yield class, PCT priorities with 1-4 change points on synchronisation yields, round robin, or one starved thread. Oracles: every scan == the same scan run alone; shared rule set memory unchanged (hash at 1 in 8 switches and at quiescence); libyara .data/.bss words written by two threads without a common simulated lock (diffed at every context switch); SIGBUS/SIGSEGV dispositions and handler use count restored; allocation/fd/mapping ledgers balanced; no deadlock, step budget. Non-trivial = at least one context switch; distinct = distinct context-switch sequence hash (from-task, to-task, yield kind).",
   "components": {"real": REAL_LIB + ["real pthreads parked/released by the scheduler", "real SIGBUS delivery and yara's signal handler"], "stub": ["thread scheduling (baton)", "pthread_mutex_lock/unlock as seen by yara (simulated blocking)", "per-thread simulated clocks", "allocator ledger", "file syscalls ledger"]},
   "assumptions": ["threads are serialised: two conflicting accesses inside one basic block of each thread cannot be interleaved; such races are visible only through the shared-state invariants", "the schedule is regenerated from (seed, run) on replay and verified through its hash rather than stored decision by decision", "a SIGBUS during rule evaluation (not the scan loop) is outside this check"],
@@ -96,7 +96,7 @@ PROPS["C09"] = {
 PROPS["C18"] = {
   "engine": "sim_cli", "variant": "cov", "level": "exploration",
   "parts": [{}],
-  "budget_quick": 75, "budget_thorough": 1500,
+  "budget_quick": 55, "budget_thorough": 1500,
   "rule": "one run = the real `yara` main (and `yarac` for pre-compiled rules) executed in a forked child under the baton scheduler on a generated directory tree (1-200 files, both fewer and more than the 64 queue slots; PE / ELF / text / empty / many-matches contents; nested directories with -r; or a scan-list file; files that cannot be opened) with options drawn from -s -L -X -m -g -e -f -w -c -n -t -i -l, -p N in {1,2,3,4,8,16,32}, externals given to yara or to yarac; directory entries are returned in a seeded order; every basic block of cli/*.c, every pthread/semaphore call under cli/threading.c, thread create/join, printf-family call, allocation and file open is a yield point; policy per run from {random quanta, PCT change points, round robin, one starved thread}. Oracles: multiset of stdout records (rule line + its string lines, contiguous) == union of single-threaded single-file invocations (`-p 1 --scan-list` of one path) with the same options; same for stderr lines; pre-compiled rules give the same output; no deadlock / step budget; exit status != 0 iff an error line was printed. Non-trivial = at least one context switch; distinct = distinct context-switch sequence hash.",
   "components": {"real": ["cli/yara.c main", "cli/yarac.c main", "cli/threading.c", "cli/args.c", "cli/common.c"] + REAL_LIB, "stub": ["pthread_create/join, pthread_mutex_lock/unlock, sem_* beneath cli/threading.c (simulated blocking, baton scheduler)", "opendir/readdir order", "printf/fprintf/putchar/puts sinks", "exit()", "time()", "open() failure for paths named unreadable*"]},
   "assumptions": ["threads are serialised (see C09)", "the schedule is regenerated from (seed, run) on replay", "-a (timeout) and -D (module data dump) are not drawn", "the queue-index lock-set invariant of the design is not implemented; lost/duplicated paths are caught through the output multiset"],
